@@ -1,6 +1,6 @@
 (* C01 — NTT-domain product equals negacyclic ring multiplication.  Statements only (see Properties_C02.v for the model). *)
 From Coq Require Import ZArith List.
-From NTT Require Import Functors Algebra Inverse NTTInst NTTClosed NTTTables Shards.
+From NTT Require Import Functors Algebra Inverse NTTInst NTTClosed NTTTables Shards Circuit CircuitTables.
 From NTT.gen Require Import Params.
 Local Open Scope Z_scope.
 
@@ -18,6 +18,19 @@ Theorem C01_product_open : forall w p g ik K k0, 0 < w -> 1 < p -> 4 * p <= 2 ^ 
   ntt_inv w p g ik K k0 (ntt_mul p k0 (ntt_fwd w p g K k0 a) (ntt_fwd w p g K k0 b)) = nega_spec p k0 a b.
 Proof. exact closed_product. Qed.
 Print Assumptions C01_product_open.
+
+(* ring isomorphism: ANY arithmetic circuit over +, -, * evaluated pointwise on the transformed (canonical) leaves and transformed back
+   equals the same circuit evaluated in Z_p[X]/(X^n+1) -- every row of every table, every degree 2..maxdeg, circuits of unbounded size *)
+Theorem C01_circuits_all_rows_all_degrees : circuits_ok 16 K16 rows16 /\ circuits_ok 32 K32 rows32 /\ circuits_ok 64 K64 rows64.
+Proof. exact circuits_ok_tables. Qed.
+Print Assumptions C01_circuits_all_rows_all_degrees.
+(* its three ingredients, open form: the forward transform is a ring homomorphism *)
+Theorem C01_fwd_homomorphism : forall w p g ik K k0, 0 < w -> 1 < p -> 4 * p <= 2 ^ w ->
+  (g ^ (2 ^ Z.of_nat K)) mod p = p - 1 -> (ik * 2 ^ Z.of_nat K) mod p = 1 -> (S k0 <= K)%nat ->
+  forall env e, (forall i, length (env i) = (2 ^ S k0)%nat) ->
+  evalN p k0 (fun i => ntt_fwd w p g K k0 (env i)) e = ntt_fwd w p g K k0 (evalR p k0 env e).
+Proof. exact circuit_hom. Qed.
+Print Assumptions C01_fwd_homomorphism.
 
 (* the spec side really is the schoolbook negacyclic product *)
 Theorem C01_spec_is_negacyclic : forall p k0 a b i, (i < 2 ^ S k0)%nat ->
